@@ -39,7 +39,8 @@ LEVEL_TEXT = ("Seeded exploration of operation histories over generated programs
 def generate(r, tier):
     big = tier == "thorough"
     for _ in range(20):
-        prog = kgen.gen_program(r, hi=18 if big else 11, feats=[f for f in kgen.ALL_FEATS if f == "choice" or r.random() < 0.7])
+        prog = kgen.gen_program(r, hi=18 if big else 11, feats=[f for f in kgen.ALL_FEATS if f == "choice" or r.random() < 0.7] +
+                                (["untyped_member"] if r.random() < 0.3 else []))
         if any(it["k"] == "choice" for it in kgen.walk(prog["items"])):
             break
     sc = {"prog": prog, "parser": kgen.pick_parser(r, prog, 0.06), "hash_salt": r.getrandbits(32),
